@@ -145,3 +145,16 @@ func harnessC18Witness() {
 		verif_assert(false, "witness")
 	}
 }
+
+// both halves close concurrently (local CloseWrite racing the remote FIN, in
+// every interleaving at lock granularity): the stream ends CLOSED, writes are
+// refused, and no undocumented transition is left behind
+func harnessC18CloseRace() {
+	_, s := c18Manager()
+	go s.HandleRemoteFinWrite()
+	s.CloseWrite()
+	verif_drain()
+	verif_reach("C18/close-race")
+	verif_assert(s.State() == StateClosed, "C18/undocumented-state-transition")
+	verif_assert(!s.CanWrite(), "C18/write-allowed-after-local-half-close")
+}
